@@ -31,11 +31,16 @@ T sc(long long n, long long d) {
   return Codec<T>::dec(json::array({n, d}));
 }
 
-// the factor splines the Spl leaves of an expression refer to
+// the factor splines the Spl leaves of an expression refer to.  They are real,
+// named objects (lvalues): an operator built from them must hold its own copy,
+// so that a later in-place change of the factor does not change the operator
+// (C14); mutateAll() makes that change.
 template <typename T>
 struct Factors {
   const json &jfs;
   std::vector<std::unique_ptr<Grid<T>>> grids;  // one Grid instance per factor
+  mutable std::vector<std::shared_ptr<void>> objs;
+  mutable std::vector<std::function<void()>> mutators;
   Factors(const json &in, const Grid<T> &operandGrid) : jfs(in.at("fs")) {
     const bool share = in.value("fshare", 1) != 0;
     for (const auto &jf : jfs) {
@@ -44,17 +49,28 @@ struct Factors {
       else
         grids.push_back(std::make_unique<Grid<T>>(decVec<T>(jf.at("g"))));
     }
+    objs.resize(jfs.size());
+    mutators.resize(jfs.size());
   }
   template <size_t O>
-  Spline<T, O> get(size_t slot) const {
-    return mkSpline<T, O>(jfs.at(slot), *grids.at(slot));
+  const Spline<T, O> &get(size_t slot) const {
+    if (!objs.at(slot)) {
+      auto p = std::make_shared<Spline<T, O>>(mkSpline<T, O>(jfs.at(slot), *grids.at(slot)));
+      objs[slot] = p;
+      mutators[slot] = [p] { *p *= static_cast<T>(3); };
+    }
+    return *std::static_pointer_cast<Spline<T, O>>(objs[slot]);
+  }
+  void mutateAll() const {
+    for (auto &m : mutators)
+      if (m) m();
   }
   json proj() const {
     json a = json::array();
     for (size_t i = 0; i < jfs.size(); i++) {
       withOrder(jfs[i].at("o").get<size_t>(), [&](auto O) {
         constexpr size_t o = decltype(O)::value;
-        if constexpr (o <= 3) a.push_back(projSpline(get<o>(i)));
+        if constexpr (o <= 3) a.push_back(projSpline(mkSpline<T, o>(jfs[i], *grids.at(i))));
       });
     }
     return a;
@@ -91,6 +107,16 @@ void applyH(const json &in, json &out) {
         const auto lp = cached<FormT>("L" + ekey, [&] { return new FormT(E::template make<T>(fs)); });
         out["lf_v"] = Codec<T>::enc((*lp)(a));
       });
+      // an operator is an independent value: changing a factor spline in place afterwards
+      // must not change what the operator does (C14)
+      guarded(out, "indep", [&] {
+        const Factors<T> fs2(in, g);
+        const auto e2 = E::template make<T>(fs2);
+        const auto r1 = e2 * a;
+        fs2.mutateAll();
+        const auto r2 = e2 * a;
+        out["indep_same"] = (r1 == r2) ? 1 : 0;
+      });
       out["a_after"] = projSpline(a);
     }
   });
@@ -113,7 +139,12 @@ void bfH(const json &in, json &out) {
         const auto ap = opSpline<T, oa>(ja, g);
         const auto bp = opSpline<T, ob>(jb, gb);
         const Spline<T, oa> &a = *ap;
-        const Spline<T, ob> &b = *bp;
+        // sameobj: the very same object is passed for both arguments (bf(a, a))
+        const Spline<T, ob> *pb = bp.get();
+        if constexpr (oa == ob) {
+          if (in.value("sameobj", 0) != 0) pb = ap.get();
+        }
+        const Spline<T, ob> &b = *pb;
         out["a"] = projSpline(a);
         out["b"] = projSpline(b);
         guarded(out, "bf", [&] {
